@@ -796,6 +796,24 @@ def run_components(tier, seed, R):
         dc.new_subset_group('', e.id['x y[z] {w}'] > 5)
         return dc
 
+    @v('reordered-coordinate-components')
+    def _():
+        from glue.core.coordinates import AffineCoordinates
+        m = np.array([[2., 0.5, 0., 1.], [0., 3., 0., -1.], [0.25, 0., 1.5, 4.], [0., 0., 0., 1.]])
+        d = Data(label='cube', v=np.arange(24.).reshape(2, 3, 4), coords=AffineCoordinates(m))
+        d['w'] = d.id['v'] * 2
+        # coordinate attributes listed against the axis order, and mixed with the others
+        order = list(d.components)
+        px, wd = list(d.pixel_component_ids), list(d.world_component_ids)
+        rest = [c for c in order if c not in px and c not in wd]
+        d.reorder_components([wd[2], px[1], rest[0], px[2], wd[0], px[0], wd[1]] + rest[1:])
+        e = Data(label='image', u=np.arange(6.).reshape(2, 3))
+        e.reorder_components(list(e.components)[::-1])
+        dc = DataCollection([d, e])
+        dc.new_subset_group('world', d.world_component_ids[2] > 5)
+        dc.new_subset_group('pixel', e.pixel_component_ids[1] > 0)
+        return dc
+
     @v('same-component-label-twice')
     def _():
         a = Data(label='a', x=np.arange(3.))
